@@ -201,6 +201,13 @@ def sample_words(m, v, ds, nbits, rng, n_random):
         w = (free | v) & ~bit & full
         if all((w & dm) != dv for dm, dv in ds):
             ws.append(w)
+    # pairs of free bits (one bit of one field together with one bit of another: base-register number x list, ...)
+    fb = [1 << i for i in range(nbits) if (free >> i) & 1]
+    for _ in range(min(len(fb) * 2, 24) if len(fb) >= 2 else 0):
+        a, b2 = rng.sample(fb, 2)
+        w = v | a | b2
+        if all((w & dm) != dv for dm, dv in ds):
+            ws.append(w)
     for _ in range(n_random):
         w = td.sample(m, v, ds, nbits, rng)
         if w is not None:
